@@ -26,8 +26,18 @@ class Clock:
         return self.loop.time() + self.offset
 
 
+class _AnyDateTime(type):
+    """isinstance(x, <shimmed datetime>) stays true for ordinary datetime objects (made by code that is not shimmed)."""
+
+    def __instancecheck__(cls, obj):
+        return isinstance(obj, _real_datetime.datetime)
+
+    def __subclasscheck__(cls, sub):
+        return issubclass(sub, _real_datetime.datetime)
+
+
 def _datetime_class(clock: Clock):
-    class VDateTime(_real_datetime.datetime):
+    class VDateTime(_real_datetime.datetime, metaclass=_AnyDateTime):
         @classmethod
         def utcnow(cls):
             return EPOCH + _real_datetime.timedelta(seconds=clock.seconds())
